@@ -69,3 +69,8 @@ CLAIMED['C12'] = dict(
     text='With symbolic stacks and symbolic hand strengths (every deal at once) the engine decides who shows, mucks and is killed; final payoffs equal the side-pot oracle applied '
          'to all players who did not fold; a mucked/killed player holds no best hand for any pot/board/type he is eligible for; tournament shows are complete; showdown order starts with the last aggressor.',
     note='two-pass oracle: pots are re-layered over the players who can win something (the engine merges pots contested by the same players, also when everybody shows); n<=3; mini hold\'em streets')
+CLAIMED['C13'] = dict(
+    technique=SYMEX + '; symbolic blind/post/stack layouts, pinned symbolic door cards, symbolic exposed-hand entries',
+    text='First-round and later-round openers of button games for symbolic stacks, blinds, straddle and post amounts; stud bring-in for every pair/triple of door cards; '
+         'later stud streets with symbolic exposed-hand strengths (real _begin_betting, stubbed private lookups).',
+    note='standard layouts only; known finding F13 (heads-up equal blinds) carved out; opening lookup tables themselves are C04')
